@@ -46,6 +46,19 @@ Section Linspace.
   Definition linspace_idx_desc (n : Z) (m : nat) : list Z := linspace_int (n - 1) 0 m.
 End Linspace.
 
+(* what the translator (tools/gen_specs/GenC16.json) needs: the geometry as far as _get_bbox_slices reads it,
+   np.linspace(start, stop, num, dtype=int) with a Python int count, and Python's negative indexing *)
+Record geom := mk_geom { g_shape : Z * Z }.
+Definition np_linspace_int {T : Type} (OP : ops T) (start stop num : Z) : list Z := linspace_int OP start stop (Z.to_nat num).
+Definition py_index (n i : Z) : Z := if i <? 0 then n + i else i.
+Definition raw_slices := ((Z * list Z) * (list Z * Z) * (Z * list Z) * (list Z * Z))%type.
+Definition resolve_slices (h w : Z) (s : raw_slices) : list (list (Z * Z)) :=
+  let '(s1, s2, s3, s4) := s in
+  [ map (fun c => (py_index h (fst s1), c)) (snd s1);
+    map (fun r => (r, py_index w (snd s2))) (fst s2);
+    map (fun c => (py_index h (fst s3), c)) (snd s3);
+    map (fun r => (r, py_index w (snd s4))) (fst s4) ].
+
 (* the exact (integer) index table: entry i of m over 0..n-1 *)
 Definition idx (n : Z) (m i : nat) : Z := (Z.of_nat i * (n - 1)) / (Z.of_nat m - 1).
 Definition idx_list (n : Z) (m : nat) : list Z := map (idx n m) (seq 0 m).
@@ -139,6 +152,33 @@ Section Ring.
     [ slice_l 0 (k + 1) x; slice_l k (k + 2) x; slice_l (k + 1) n x;
       match last_opt x, x with Some l, f :: _ => [l; f] | _, _ => [] end ].
 End Ring.
+
+(* AreaBoundary.decimate(ratio) (legacy_boundary.py; reached through AreaDefBoundary(area, frequency)):
+   the positions kept of a side with L vertices
+       start = int((L % ratio) / 2)
+       points = concatenate(([0], arange(start, L, ratio), [L - 1]))
+       if points[1] == 0: points = points[1:]
+       if points[-2] == L - 1: points = points[:-1] *)
+Definition arange_step (start stop step : Z) : list Z :=
+  map (fun k => start + Z.of_nat k * step) (seq 0 (Z.to_nat ((stop - start + step - 1) / step))).
+Definition decimate_idx (L ratio : Z) : list Z :=
+  let start := (L mod ratio) / 2 in
+  let p0 := [0] ++ arange_step start L ratio ++ [L - 1] in
+  let p1 := match p0 with _ :: 0 :: _ => tl p0 | _ => p0 end in
+  match rev p1 with
+  | _ :: x :: _ => if x =? L - 1 then removelast p1 else p1
+  | _ => p1
+  end.
+Definition select {A} (d : A) (l : list A) (pos : list Z) : list A := map (fun i => nth (Z.to_nat i) l d) pos.
+Definition decimate_sides {A} (d : A) (ratio : Z) (sides : list (list A)) : list (list A) :=
+  map (fun s => select d s (decimate_idx (Z.of_nat (length s)) ratio)) sides.
+
+(* get_boundary_lonlats (kd_tree / bilinear legacy entry point): the four complete sides
+   (0, :), (:, -1), (-1, ::-1), (::-1, 0) *)
+Definition zrange (n : Z) : list Z := map Z.of_nat (seq 0 (Z.to_nat n)).
+Definition full_sides (h w : Z) : list (list (Z * Z)) :=
+  [ map (fun c => (0, c)) (zrange w); map (fun r => (r, w - 1)) (zrange h);
+    map (fun c => (h - 1, c)) (rev (zrange w)); map (fun r => (r, 0)) (rev (zrange h)) ].
 
 (* _filter_sides_nans: drop the vertices with a NaN coordinate; a side without any valid vertex is an error *)
 Section Nans.
